@@ -36,7 +36,9 @@ CONSTANTS Pool,        \* "quick" | "thorough" | "limits": which bounded pools a
           MaxDirs, MaxDepth, MaxFiles, MaxGi, MaxLines,
           ParseLimit,  \* _PARSED_FILE_LIMIT (30 in the code)
           OpenLimit,   \* _OPENED_FILE_LIMIT (2000 in the code)
-          EmitMod, EmitRem
+          EmitMod, EmitRem,
+          Fixed        \* subset of {"DEV1", "DEV2", "DEV4"}: deviations that are repaired in the code
+                       \* (the Design then follows the patch proposed for that finding); {} today
 
 ---------------------------------------------------------------------------
 (* Text *)
@@ -207,7 +209,10 @@ WhyMissing(T, R, q, res, plimit) ==
            THEN { MissShape(T, D) : D \in {E \in NamespaceDirs(T, q.name) : MustSee(R, E)} }
            ELSE {})
 LeakedItem(T, R, r) ==
-  IF r.path # <<>> THEN StrictlyIgnoredR(R, r.path)
+  IF r.path # <<>> /\ r.type = "module" /\ Last(r.path) \in {T_init_py, T_init_pyi}
+  THEN \* a package is judged by its directory (an ignored __init__.py in a visible package: don't care)
+       Len(r.path) > 1 /\ StrictlyIgnoredR(R, Front(r.path))
+  ELSE IF r.path # <<>> THEN StrictlyIgnoredR(R, r.path)
   ELSE /\ r.type \in {"module", "namespace"}
        /\ \E D \in T.dirs : Last(D) = r.name
        /\ \A D \in T.dirs : Last(D) = r.name => StrictlyIgnoredR(R, D)
@@ -263,19 +268,33 @@ OrdSeq(S, asc) ==
        IN <<m>> \o OrdSeq(S \ {m}, asc)
 
 \* the "for file_io in file_ios" loop of recurse_find_python_folders_and_files
+\* expand_relative_ignore_paths(folder_io, relative_paths)
+\* DEV-1: the code tests curr_path.startswith(p[0]) on strings, so the entries of a/.gitignore
+\*        also apply below ab/.  Repaired: curr_path = p[0] or below p[0] + "/".
+UnderStr(cur, folder) == IF "DEV1" \in Fixed THEN cur = folder \/ StartsWith(cur, folder \o <<SL>>)
+                         ELSE StartsWith(cur, folder)
+Expand(cur, rel) == { Join(cur, p[2]) : p \in {r \in rel : UnderStr(cur, r[1])} }
+
+\* the "for file_io in file_ios" loop of recurse_find_python_folders_and_files
+\* DEV-2: file_io.path is a pathlib.Path and except_paths holds str, so the membership test never
+\*        excludes a file; basename entries are only ever applied to folders; a file listed
+\*        before the .gitignore of its own directory is yielded before that is read.
+\*        Repaired: the .gitignore is read first, files are tested as str against the anchored
+\*        and the expanded basename entries.
+FileExcluded(cur, path, acc) ==
+  IF "DEV2" \in Fixed THEN PStr(path) \in acc.abs \/ path \in Expand(cur, acc.rel)
+  ELSE PPath(path) \in acc.abs
+ReadGi(T, D, acc) == LET g == GiParse(D, GiLines(T, D))
+                     IN [acc EXCEPT !.abs = @ \cup g.abs, !.rel = @ \cup g.rel]
 RECURSIVE FilesLoop(_, _, _, _, _)
 FilesLoop(T, D, cur, names, acc) ==
   IF names = <<>> THEN acc
   ELSE LET n    == Head(names)
            path == Join(cur, n)
-           \* DEV-2: file_io.path is a pathlib.Path, except_paths holds str: the test never excludes
-           a1   == IF PyName(n) /\ PPath(path) \notin acc.abs
+           a1   == IF PyName(n) /\ ~FileExcluded(cur, path, acc)          \* path.suffix in ('.py', '.pyi')
                    THEN [acc EXCEPT !.out = Append(@, [k |-> "file", path |-> D \o <<n>>])]
                    ELSE acc
-           a2   == IF n = T_gitignore
-                   THEN LET g == GiParse(D, GiLines(T, D))
-                        IN [a1 EXCEPT !.abs = @ \cup g.abs, !.rel = @ \cup g.rel]
-                   ELSE a1
+           a2   == IF n = T_gitignore /\ "DEV2" \notin Fixed THEN ReadGi(T, D, a1) ELSE a1
        IN FilesLoop(T, D, cur, Tail(names), a2)
 
 \* one os.walk step (top-down, pruning in place) and the recursion into the kept folders;
@@ -283,9 +302,10 @@ FilesLoop(T, D, cur, names, acc) ==
 RECURSIVE WalkDir(_, _, _, _), WalkDirs(_, _, _, _, _)
 WalkDir(T, asc, D, acc) ==
   LET cur == AbsStr(D)
-      a1  == FilesLoop(T, D, cur, OrdSeq(FileNamesIn(T, D), asc), acc)
-      \* DEV-1: expand_relative_ignore_paths tests curr_path.startswith(p[0]) on strings
-      expanded == { Join(cur, p[2]) : p \in {r \in a1.rel : StartsWith(cur, r[1])} }
+      names == OrdSeq(FileNamesIn(T, D), asc)
+      a0  == IF "DEV2" \in Fixed /\ T_gitignore \in Range(names) THEN ReadGi(T, D, acc) ELSE acc
+      a1  == FilesLoop(T, D, cur, names, a0)
+      expanded == Expand(cur, a1.rel)
       kept == SelectSeq(OrdSeq(ChildNames(T, D), asc),
                         LAMBDA n : /\ PStr(Join(cur, n)) \notin a1.abs
                                    /\ Join(cur, n) \notin expanded
@@ -357,7 +377,8 @@ ResolveRoot(T, n) ==
 RootMods(T) == { ResolveRoot(T, n) : n \in RootModuleNames(T) }      \* does not depend on the query
 RECURSIVE SetToSeq(_)
 SetToSeq(S) == IF S = {} THEN <<>> ELSE LET x == CHOOSE y \in S : TRUE IN <<x>> \o SetToSeq(S \ {x})
-Phase3(rm, q) == SetToSeq({it \in rm : DesignMatch(it.name, q) /\ TypeOK("module", q)})
+Phase3(rm, q) == IF "DEV4" \in Fixed THEN <<>>      \* repaired: the root is excluded, as the comment in the code says
+                 ELSE SetToSeq({it \in rm : DesignMatch(it.name, q) /\ TypeOK("module", q)})
 
 \* project._try_to_skip_duplicates
 RECURSIVE Dedup(_, _, _)
@@ -486,6 +507,8 @@ Verdict ==
 \* every difference between the Design and the Reference has one of the known shapes
 \* (this includes: no duplicates, Script.search agrees with get_names, pruning in place)
 DesignMeetsReferenceModuloKnown == Verdict \subseteq KnownShapes
+\* the full statement (holds when every deviation is repaired: Fixed = {"DEV1","DEV2","DEV4"})
+DesignMeetsReference == Verdict = {}
 \* strict forms; their counterexamples are replayed on the real code by the harness
 StrictComplete      == "missing:gitignore-dir-string-prefix" \notin Verdict
 StrictNoIgnoredFile == "ignored-reported:gitignored-file" \notin Verdict
